@@ -78,7 +78,7 @@ func classify(t string, cs *Case) class {
 
 			return class{"reject", "no-subject-in-response"}
 		}
-	case "jwt", "jwtmd":
+	case "jwt", "jwtmd", "jwtt":
 		switch {
 		case a.Scheme == "":
 			return class{"none", "absent"}
